@@ -287,3 +287,14 @@ for _p in ('C01', 'C02'):
 TEXT['C01']['level'] = ('PROOF, end to end on the model against the RFC 8259 grammar: PropsC01.C01_Valid_iff_rfc8259: for ALL inputs and buffers (len <= MaxInt), the model of Valid over the REGENERATED skipValue table reports true iff the input is ws ++ v ++ ws with v a value of the inductive RFC 8259 grammar (Grammar.v: one constructor per production) nested at most 10000 deep. Chain: wf_check + certified simulation with the hand-written spec machine (TieSim) + SpecFacts.valid_spec_correct (spec machine = reference validator) + Grammar.valid_ref_iff (reference = grammar); axiom-free. Correspondence: impl vs model vs json.Valid on state x byte sweeps with per-state completions, small-scope strings, documents+mutants, depth 9999-10001, 3 buffer kinds')
 TEXT['C01']['note'] = _TB + 'encoding/json.Valid is used as an oracle in the correspondence (the theorem is about the grammar).'
 TEXT['C02']['level'] = ('PROOF, end to end on the model against the RFC 8259 grammar: PropsC01.C02_SkipValue_sound / C02_SkipValue_complete (+ PropsC02.C02_SkipValue_exact against the executable reference): for ALL inputs and buffers SkipValue over the REGENERATED table succeeds exactly on ws ++ value (nesting <= 10000) followed by anything that does not continue a number token, and returns the offset just after the value. Correspondence incl. every value x every next byte, truncations at every position, sweeps; oracle json.Decoder offsets')
+
+# C03 / C08: the tree theorem and the offset-composition theorems on the regenerated tables
+TREE_STATIC = ['Ref.v', 'SpecFacts.v', 'SpecFacts2.v', 'SpecFacts3.v'] + FP_STATIC + ['FloatTok.v', 'OffsetFacts.v', 'TreeFacts.v', 'TreeTie.v']
+for _p in ('C03', 'C08'):
+    PROPS[_p]['run_files'] = PROPS[_p]['run_files'] + ['PropsC02.v', 'PropsC03.v']
+    PROPS[_p]['static_files'] = PROPS[_p]['static_files'] + [f for f in TREE_STATIC if f not in PROPS[_p]['static_files']]
+TEXT['C03']['level'] = ('PROOF, end to end on the model: PropsC03.C03_ReadValue_tree / C03_ReadObject_tree / C03_ReadArray_tree: for ALL inputs (len <= MaxInt) the model of ValueReader.ReadValue / ReadObject / ReadArray over the REGENERATED handler, literal and escape tables and the regenerated float tables returns exactly the reference value tree TreeFacts.parse_ref (RFC 8259 grammar via Ref; strings decoded as C06 says incl. keys; objects as key/value lists in document order, which the harness maps to last-wins maps; numbers = the float parser on the number token, see C04; null rejected by the typed entry points) and the offset just after the value, and an error wherever the reference assigns no tree (incl. nesting > 10000). Chain: TieWf + TieSim (tables = spec machines) + TreeTie.ReadValue_congr (the reader depends on its machines only through observables) + TreeFacts.read_value_tree; axiom-free. The reference tree vs encoding/json is the oracle half of the correspondence: generated trees with duplicate / escaped / colliding keys, every float path, typed entry points on every token class, sibling-shaped nesting at the depth limit.')
+TEXT['C03']['note'] = _TB + 'The hand model of complex_readers.go (Api.ReadValue, ValueReader.v) is validated by the correspondence check, not derived; maps are modelled as ordered key/value lists (last-wins applied by the harness); sync.Pool and the Go heap are not modelled. Beyond nesting 2000 only implementation vs encoding/json is compared (model evaluation cost).'
+TEXT['C03']['technique'] = 'Coq proof (regenerated tables -> certified simulation -> spec machines -> congruence -> reference tree) with impl/model/encoding-json correspondence'
+TEXT['C08']['level'] = ('PROOF on the model for the offset-composition core + correspondence for arbitrary decoders: PropsC03.C08_ReadValue_offset_is_SkipValue (a successful generic read ends exactly at SkipValue\'s offset), C08_direct_fails_where_SkipValue_fails, C08_traversal_offset / C08_traversal_exact (HandleArrayValues / HandleObjectValues over the REGENERATED tables with any handler that answers each call with an error or the end offset of a successful nested read end, on success, exactly at the reference skipper\'s offset = SkipValue\'s offset, and otherwise with the handler\'s own error), OffsetFacts.*_offset_is_skip (every typed reader model - integers, float, string, bool, null - ends at the reference offset of the value it read). With C03 (tree) and C07 (members in order, exactly once) this gives: a decoder composed of handlers and validating readers visits the members of the reference tree and ends where direct decoding ends, and fails wherever direct decoding fails. PARTIAL in that the set of user decoders is not formalised beyond vr_style handlers; that part is the correspondence: a decoder written only against the public API, choosing per value among typed readers / SkipValue / SkipValueFast / nested handlers by a decision function shared by the Go harness and the OCaml driver, trees and final offsets compared with direct decoding and with encoding/json. At the depth boundary the handler machines impose no limit of their own (OffsetFacts.handle_offset_boundary_ex), so the theorem is stated with the unbounded reference skipper.')
+TEXT['C08']['technique'] = 'Coq proof (offset theorems over regenerated tables) with strategy-interpreter correspondence'
